@@ -84,7 +84,6 @@ package kvql
 //@   ensures[C02] covers: old(covers(l, k)) && old(covers(r, k)) ==> covers(res, k)
 //@   ensures[C18] sub: covers(res, k) ==> old(covers(l, k)) && old(covers(r, k))
 //@   ensures[C18] sub2: sub2(res, l, k, k2)
-//@   ensures[C18] sub2: sub2(res, l, k, k2)
 //@   ensures[C18] disjoint: !pre(val(l.keys[0]), val(r.keys[0])) && !pre(val(r.keys[0]), val(l.keys[0])) ==> res.scanTp == EMPTY
 //@   assigns nothing
 //
@@ -340,7 +339,6 @@ package kvql
 //@   ensures wf: wfST(res)
 //@   ensures[C02] covers: old(covers(l, k)) && old(covers(r, k)) ==> covers(res, k)
 //@   ensures[C18] sub: covers(res, k) ==> old(covers(l, k)) && old(covers(r, k))
-//@   ensures[C18] sub2: sub2(res, l, k, k2)
 //@   ensures[C18] sub2: sub2(res, l, k, k2)
 //@   ensures[C18] disjoint: res.scanTp == EMPTY || res.scanTp == MGET
 //@   assigns nothing
